@@ -2,7 +2,7 @@
 //! macro will see, plus the glue that implements `Reg` for the generated type. The glue contains
 //! only trivial conversions between u128 bit patterns and the declared field types.
 
-use crate::layout::{is_native, storage_bits, Access, Field, Kind, Layout};
+use crate::layout::{is_native, storage_bits, Field, Kind, Layout};
 use crate::prng::mask;
 use std::fmt::Write;
 
@@ -366,5 +366,3 @@ pub fn workspace_cargo_toml(members: &[String]) -> String {
         list.join(", ")
     )
 }
-
-pub fn _unused(_: Access) {}
